@@ -10,7 +10,6 @@
 EXTENDS DateTime, TLC, Json
 
 Recs == ndJsonDeserialize("dt.ndjson")
-NBlocks == 64
 
 Strip(v) == [ty |-> v.ty, y |-> v.y, mo |-> v.mo, d |-> v.d, h |-> v.h, mi |-> v.mi, sec |-> v.sec, ns |-> v.ns, off |-> v.off]
 SameValue(a, b) == Strip(a) = Strip(b)
@@ -52,10 +51,9 @@ JudgeCommute(r) ==
 Judge(r) ==
   CASE r.kind = "value" -> JudgeValue(r) [] r.kind = "hostile" -> JudgeHostile(r) [] r.kind = "commute" -> JudgeCommute(r)
 
-VARIABLES blk, done
-Init == blk \in 1..NBlocks /\ done = FALSE
-Step == /\ ~done
-        /\ \A j \in 0..((Len(Recs) - blk) \div NBlocks) :
-              LET r == Recs[blk + j * NBlocks] IN \A cl \in Judge(r) : PrintT(<<"V", r.id, cl>>)
-        /\ done' = TRUE /\ blk' = blk
+VARIABLES l, verdict
+Init == /\ l \in 1..Len(Recs)
+        /\ verdict = Judge(Recs[l])
+        /\ \A cl \in verdict : PrintT(<<"V", Recs[l].id, cl>>)
+Step == UNCHANGED <<l, verdict>>
 =============================================================================
